@@ -161,6 +161,10 @@ class _Routine:
             for p in spec.pushes:
                 if p == "F":
                     st.append(self.field_t(ins))
+                elif p == "G":
+                    # *_params_get value: a uint64 field is a uint64 whether or not the thing exists (0 when it does not);
+                    # a bytes field is bytes or the uint64 0 - left untyped
+                    st.append("U" if self.field_t(ins) == "U" else "A")
                 else:
                     st.append(p)
             if op == "return" and self.name is None and (st or b):
